@@ -409,7 +409,7 @@ func c13(c *Ctx) {
 				}
 				for _, pr := range [][2]ssa.Value{{bo.X, bo.Y}, {bo.Y, bo.X}} {
 					if s, ok := cfgx.ConstString(pr[1]); ok && s == "ComposedResource" && strings.HasSuffix(pr[1].Type().String(), "engine.WatchType") {
-						if _, p, ok := flow.AccessPath(pr[0]); ok && strings.HasSuffix(p, "Type") {
+						if _, p, ok := flow.AccessPathC(pr[0]); ok && strings.HasSuffix(p, "Type") {
 							t, f := cfgx.CondEdges(bo)
 							if bo.Op == token.EQL {
 								isComposed = append(isComposed, t...)
